@@ -458,3 +458,24 @@ func (s *Srv) barrierOrWedged(c *kit.Case, pid, what string) *kit.Violation {
 	sort.Strings(stuck)
 	return kit.Violatef(pid+":node-wedged", "%s: the node stopped reading its socket - datagrams are queued, and every goroutine of the library is blocked: %v", what, stuck)
 }
+
+// stats calls Server.Stats with a deadlock guard: a server lock that was leaked by some earlier path
+// would otherwise hang the check instead of being reported. ok=false means "no verdict possible"
+// (c.Inconclusive is set) or a violation was returned.
+func (s *Srv) stats(c *kit.Case, pid, what string) (st dht.ServerStats, v *kit.Violation, ok bool) {
+	done := make(chan dht.ServerStats, 1)
+	go func() { done <- s.S.Stats() }()
+	select {
+	case st = <-done:
+		return st, nil, true
+	case <-time.After(10 * time.Second):
+	}
+	for i := 0; i < 3; i++ {
+		if blocked, who := s.C.AllBlocked(); !blocked {
+			c.Inconclusive = what + ": Stats() still running after 10 s with runnable goroutines: " + who
+			return st, nil, false
+		}
+		time.Sleep(50 * time.Millisecond)
+	}
+	return st, kit.Violatef(pid+":api-wedged", "%s: Stats() does not return although every goroutine of the library is blocked (the server lock was left held)", what), false
+}
